@@ -85,6 +85,17 @@ def setFold : List Tok → Bool → List SetVal → List SetVal
 def setRT (vals : List SetVal) : Bool :=
   setFold (printSetVals vals) false [] = vals
 
+def sortedB : List SetVal → Bool
+  | [] => true
+  | x :: xs => xs.all (fun y => x.lt y) && sortedB xs
+
+def valCanon : SetVal → Bool
+  | .num n => n.scale = 0 || n.mant % 10 != 0
+  | .str _ => true
+
+/-- a key set as the model builds it: sorted by value, canonical decimals. -/
+def setCanon (vals : List SetVal) : Bool := sortedB vals && vals.all valCanon
+
 /-- the regex in front of an expression (if it starts with one) is re-read as itself in the
 position the expression stands in. `ctx`: `ScanRegex` position (`=~`, `!~`, call argument). -/
 def regexFirstOK (ctx : Bool) (e : Expr) : Bool :=
